@@ -23,7 +23,7 @@ RULE = ('Hypothesis RuleBasedStateMachine over an agent process that links /repo
 ASSUME = ['Linux tmpfs semantics of the POSIX mirror calls are the reference ("the corresponding POSIX operations")',
           'rights are mapped to open(2) access modes as wasi.c documents (read|write -> O_RDWR, write -> O_WRONLY, else O_RDONLY)']
 
-NONTRIVIAL = ('positional_then_sequential', 'multi_iovec_with_empty', 'offset>=2^32', 'offset>=2^63', 'append', 'unstable_seek')
+NONTRIVIAL = ('positional_then_sequential', 'multi_iovec_with_empty', 'offset>=2^32', 'offset>=2^63', 'append', 'unstable_seek', 'filestat_of_renamed_or_unlinked_open_file')
 OFFSETS = st.one_of(st.integers(0, 4096), st.sampled_from([0, 1, 99, (1 << 31) - 1, 1 << 31, (1 << 32) - 1, 1 << 32, (1 << 32) + 5,
                                                           1 << 33, 1 << 40, (1 << 63) - 1,
                                                           # the full 64-bit range: as off_t these are negative (POSIX: EINVAL)
@@ -80,6 +80,23 @@ class C12Machine(RuleBasedStateMachine):
     @rule(fd=fds, unstable=st.booleans())
     def fd_filestat_get(self, fd, unstable):
         self.ex.fd_filestat_get(fd, unstable)
+
+    @rule(op=st.sampled_from(['unlink_file', 'rename', 'rename+recreate']), name=st.sampled_from(wasifs.FILE_NAMES), unstable=st.booleans())
+    def name_changes(self, op, name, unstable):
+        # the NAME of a (possibly open) file goes away or is taken over by another file: open descriptors keep denoting the file
+        ex = self.ex
+        root = ex.preopens[0]
+        if op == 'unlink_file':
+            ex.path_op('unlink_file', root, name)
+        else:
+            ex.path_op('rename', root, name, name + '.old', root)
+            if op == 'rename+recreate':
+                fd = ex.path_open(root, name, 1, True, True, False)
+                if fd is not None:
+                    ex.fd_write(fd, [b'new file under the old name'])
+                    ex.fd_close(fd)
+        for fd in ex.live_file_fds():
+            ex.fd_filestat_get(fd, unstable)
 
     @rule(fd=consumes(fds))
     def fd_close(self, fd):
